@@ -64,6 +64,27 @@ func c08Several(c *fw.Ctx, r *rng.R) {
 		}
 		for step := r.Range(4, 12); step > 0; step-- {
 			j := r.Intn(len(holders))
+			if r.Chance(1, 5) && len(holders) < 8 {
+				// a holder with a history (itself a clone, grown, written to, shrunk) is cloned again: the new clone shows what the
+				// holder shows now, and joins the others
+				var cl any
+				switch x := holders[j].(type) {
+				case at.List:
+					cl = x.Clone()
+				case at.Object:
+					cl = x.Clone()
+				}
+				names = append(names, fmt.Sprintf("c%d", len(holders)))
+				trace = append(trace, fmt.Sprintf("%s = %s.Clone()", names[len(names)-1], names[j]))
+				if got := stringCanon(cl); got != canon[j] {
+					c.Violate("clone-differs-from-original", in(), fmt.Sprintf("a clone that shows what %s shows: %s", names[j], spec.Trunc(canon[j], 400)), spec.Trunc(got, 400))
+					return
+				}
+				holders = append(holders, cl)
+				canon = append(canon, canon[j])
+				c.Count("clones_of_holders_with_a_history")
+				continue
+			}
 			// the container written to: the holder itself or a container nested in it
 			var target any = holders[j]
 			where := names[j]
@@ -96,6 +117,14 @@ func c08Several(c *fw.Ctx, r *rng.R) {
 					case op == 5:
 						x.Clear()
 						desc = "Clear"
+					case op == 6 && r.Bool():
+						x.Add(step, "grown", 2.5, step+1, "beyond four")
+						desc = "Add(5 values)"
+					case op == 6 && n > 2:
+						for x.Count() > 2 {
+							x.Pop()
+						}
+						desc = "Pop down to two"
 					case op == 6:
 						x.Clear().Add(step, "refilled")
 						desc = "Clear, Add"
@@ -143,6 +172,64 @@ func c08Several(c *fw.Ctx, r *rng.R) {
 				}
 				canon[k] = now
 			}
+		}
+		// every holder that is (or contains) a list grows well beyond its size, is rewritten in the middle and shrinks back; a
+		// clone taken then shows what the holder shows then - whatever either remembers from when it was a short copy
+		for j, h := range holders {
+			var lst at.List
+			if l, ok := h.(at.List); ok {
+				lst = l
+			} else if snap, err := drive.Walk(h); err == nil {
+				for tries := 0; tries < 6 && lst == nil; tries++ {
+					if node, _, ok := pickContainer(r, snap); ok && node != nil {
+						if l, isL := node.Id.(at.List); isL {
+							lst = l
+						}
+					}
+				}
+			}
+			if lst == nil {
+				continue
+			}
+			n0 := lst.Count()
+			drive.Protect(func() {
+				grow := r.Range(3, 9)
+				for k := 0; k < grow; k++ {
+					lst.Add(fmt.Sprintf("g%d", k))
+				}
+				switch r.Intn(3) {
+				case 0:
+					lst.Replace(1+r.Intn(3), "rewritten")
+				case 1:
+					lst.Insert(1+r.Intn(3), at.NewList("inserted"))
+				default:
+					lst.Delete(1 + r.Intn(3))
+				}
+				for lst.Count() > n0 && lst.Count() > r.Range(1, 4) {
+					lst.Pop()
+				}
+			})
+			trace = append(trace, fmt.Sprintf("%s: a list in it grows, is rewritten at index 1..3 and shrinks back to %d elements", names[j], lst.Count()))
+			for k, hh := range holders {
+				now := stringCanon(hh)
+				if k != j && now != canon[k] {
+					c.Violate("clone-mutation-leaks", in(), fmt.Sprintf("%s still prints %s", names[k], spec.Trunc(canon[k], 400)), spec.Trunc(now, 400))
+					return
+				}
+				canon[k] = now
+			}
+			var cl any
+			switch x := h.(type) {
+			case at.List:
+				cl = x.Clone()
+			case at.Object:
+				cl = x.Clone()
+			}
+			if got := stringCanon(cl); got != canon[j] {
+				c.Violate("clone-differs-from-original", in()+fmt.Sprintf("\n  then %s.Clone()", names[j]), fmt.Sprintf("a clone that shows what %s shows: %s", names[j], spec.Trunc(canon[j], 400)), spec.Trunc(got, 400))
+				return
+			}
+			c.Count("clones_of_holders_with_a_history")
 		}
 		c.Distinct(in())
 	})
